@@ -1008,7 +1008,7 @@ func (index *fkDeleteCascadeConstraint) ProcessAfterUpdate(*IndexingContext) {
 
 func (index *fkDeleteCascadeConstraint) ProcessBeforeDelete(ctx *IndexingContext) {
 	if !ctx.ErrHolder.HasError() {
-		filter, err := ast.Parse(index.symbol.GetStore(), fmt.Sprintf(`%v = "%v"`, index.symbol.GetName(), string(ctx.RowId)))
+		filter, err := ast.Parse(index.symbol.GetStore(), fmt.Sprintf(`%v = "%v"`, index.symbol.GetName(), escapeZqlString(string(ctx.RowId))))
 		if ctx.ErrHolder.SetError(err) {
 			return
 		}
@@ -1041,6 +1041,30 @@ func (index *fkDeleteCascadeConstraint) ProcessBeforeDelete(ctx *IndexingContext
 			}
 		}
 	}
+}
+
+// escapeZqlString returns s as it must be written between the quotes of a ZitiQL
+// string literal, so that an id containing quotes or backslashes is matched
+// literally instead of breaking (or changing) the filter it is spliced into.
+func escapeZqlString(s string) string {
+	buf := make([]byte, 0, len(s))
+	for i := 0; i < len(s); i++ {
+		switch c := s[i]; c {
+		case '\\', '"':
+			buf = append(buf, '\\', c)
+		case '\f':
+			buf = append(buf, '\\', 'f')
+		case '\n':
+			buf = append(buf, '\\', 'n')
+		case '\r':
+			buf = append(buf, '\\', 'r')
+		case '\t':
+			buf = append(buf, '\\', 't')
+		default:
+			buf = append(buf, c)
+		}
+	}
+	return string(buf)
 }
 
 func (index *fkDeleteCascadeConstraint) Initialize(*bbolt.Tx, errorz.ErrorHolder) {
